@@ -29,7 +29,7 @@ git -C "$W" apply "$P"
 (cd "$W" && git ls-files --others --exclude-standard | xargs -r rm -f)
 results=""
 for c in $checks; do
-  out=$(cd "$ROOT" && REPO="$W" VERIF_EVIDENCE_DIR=/dev/shm/seed-ev-$$ VERIF_BUDGET_S=${BUDGET:-280} ./run check $c --tier ${TIER:-quick} 2>&1); code=$?
+  out=$(cd "$ROOT" && REPO="$W" timeout -k 10 ${SEED_TIMEOUT:-2400} env VERIF_EVIDENCE_DIR=/dev/shm/seed-ev-$$ VERIF_BUDGET_S=${BUDGET:-280} ./run check $c --tier ${TIER:-quick} 2>&1); code=$?
   nv=$(echo "$out" | grep -c "^VIOLATION property=$c")
   first=$(echo "$out" | grep -A1 "^VIOLATION" | grep signature | head -2 | tr '\n' ';')
   results="$results{\"check\":\"$c\",\"tier\":\"${TIER:-quick}\",\"exit\":$code,\"violation_lines\":$nv,\"first_signatures\":\"$(echo $first | sed 's/"/\\"/g')\"},"
